@@ -74,13 +74,25 @@ func init() {
 				n--
 			}
 			inputs := allSeqs(terms, n)
+			// deep inputs (nesting / right recursion where the grammar has it): the parser's stacks grow far beyond their
+			// initial capacity, and whatever a parser does about that afterwards must not show in the next call; also
+			// the same inputs cut short (they fail deep inside)
+			nShort := len(inputs)
+			seenDeep := map[string]bool{}
+			for _, d := range []int{330, 1500} {
+				if deep := c.DeepSentence(d); deep != nil && !seenDeep[strings.Join(deep, " ")] {
+					seenDeep[strings.Join(deep, " ")] = true
+					inputs = append(inputs, deep, deep[:len(deep)-1])
+					st.add("deep_inputs", 2)
+				}
+			}
 			type fr struct {
 				s      string
 				failed bool
 			}
 			fresh := make([]fr, len(inputs))
 			for i, in := range inputs {
-				rec := &rt.Recorder{}
+				rec := &rt.Recorder{MaxActs: 200000}
 				res := im.NewParser().Parse(seqTypes(im, in), rec, 0, len(in)+4)
 				fs := sig(res, rec)
 				if res.ErrObj != nil && im.ErrorString != nil {
@@ -95,7 +107,7 @@ func init() {
 				hs := ""
 				outcomes := ""
 				for _, h := range hist {
-					rec := &rt.Recorder{FailAt: h[1]}
+					rec := &rt.Recorder{FailAt: h[1], MaxActs: 200000}
 					r1 := p.Parse(seqTypes(im, inputs[h[0]]), rec, 0, len(inputs[h[0]])+4)
 					if r1.ErrObj != nil && im.ErrorString != nil {
 						// the caller looks at the error before parsing again; rendering it twice must give the same text
@@ -104,7 +116,7 @@ func init() {
 								map[string]any{"tokens": inputs[h[0]], "first": a, "second": b})
 						}
 					}
-					hs += fmt.Sprintf("[%s]fail@%d ", strings.Join(inputs[h[0]], " "), h[1])
+					hs += fmt.Sprintf("[%s]fail@%d ", shortSeq(inputs[h[0]]), h[1])
 					switch {
 					case r1.Panic != "":
 						outcomes += "P"
@@ -116,7 +128,7 @@ func init() {
 						outcomes += "S"
 					}
 				}
-				rec := &rt.Recorder{}
+				rec := &rt.Recorder{MaxActs: 200000}
 				res := p.Parse(seqTypes(im, inputs[last]), rec, 0, len(inputs[last])+4)
 				st.add("histories", 1)
 				got := sig(res, rec)
@@ -124,8 +136,8 @@ func init() {
 					got += " text=" + im.ErrorString(res.ErrObj)
 				}
 				if got != fresh[last].s {
-					st.violation("C16", it.ID+" "+hs+"["+strings.Join(inputs[last], " ")+"]",
-						fmt.Sprintf("after %son the same parser (each error rendered by the caller), Parse([%s]) gives %s; a fresh parser gives %s", hs, strings.Join(inputs[last], " "), got, fresh[last].s),
+					st.violation("C16", it.ID+" "+hs+"["+shortSeq(inputs[last])+"]",
+						fmt.Sprintf("after %son the same parser (each error rendered by the caller), Parse([%s]) gives %s; a fresh parser gives %s", hs, shortSeq(inputs[last]), clipStr(got, 600), clipStr(fresh[last].s, 600)),
 						map[string]any{"history": hs, "tokens": inputs[last], "got": got, "fresh": fresh[last].s})
 				}
 				o2 := "S"
@@ -134,8 +146,22 @@ func init() {
 				}
 				st.dist(outcomes + ">" + o2)
 			}
-			for a := range inputs {
-				for b := range inputs {
+			// deep inputs are paired with the first short inputs and with each other (before and after), not with everything
+			for d := nShort; d < len(inputs); d++ {
+				for b := 0; b < len(inputs); b++ {
+					if b >= 8 && b < nShort {
+						continue
+					}
+					run([][2]int{{d, 0}}, b)
+					run([][2]int{{d, 1}}, b)
+					run([][2]int{{d, len(inputs[d]) / 2}}, b)
+					if b < nShort {
+						run([][2]int{{b, 0}}, d)
+					}
+				}
+			}
+			for a := 0; a < nShort; a++ {
+				for b := 0; b < nShort; b++ {
 					run([][2]int{{a, 0}}, b)
 					run([][2]int{{a, 1}}, b)
 					if len(inputs[a]) >= 2 {
@@ -227,4 +253,19 @@ func init() {
 			rec(nil, n)
 		}
 	}
+}
+
+// shortSeq renders a token sequence, abbreviating long ones (the full sequence is in the replay case).
+func shortSeq(seq []string) string {
+	if len(seq) <= 14 {
+		return strings.Join(seq, " ")
+	}
+	return strings.Join(seq[:6], " ") + fmt.Sprintf(" ... (%d tokens) ... ", len(seq)) + strings.Join(seq[len(seq)-4:], " ")
+}
+
+func clipStr(s string, n int) string {
+	if len(s) > n {
+		return s[:n] + "..."
+	}
+	return s
 }
